@@ -181,12 +181,28 @@ def parse(path):
     return u
 
 
-def apply_edits(item, edits, twin_false=False):
+def _apply_one_lift(item, e):
+    k = e["kind"]
+    at = e["attrs"]
+    if k == "lift-block":
+        item.lift_block(at["anchor"], int(at.get("nth", "1")), e["a"], at.get("why", ""), at.get("pre", ""), at.get("post", ""))
+    elif k == "lift-stmts":
+        item.lift_stmts(at["anchor"], int(at.get("nth", "1")), int(at.get("count", "1")), e["a"], at.get("post", ""), at.get("why", ""))
+    elif k == "lift-closure":
+        item.lift_closure(at["anchor"], int(at.get("nth", "1")), e["a"], at.get("why", ""))
+
+
+def apply_edits(item, edits, twin_false=False, prelets=None):
     """Apply the declared edits in order.  Returns True if the item has a signature contract."""
     contracted = False
     for e in edits:
         k = e["kind"]
         at = e["attrs"]
+        if k in ("lift-block", "lift-stmts", "lift-closure") and prelets:
+            # right after the lift (before contract text with its own braces is inserted)
+            _apply_one_lift(item, e)
+            item.prepend_stmts("\n".join(prelets))
+            continue
         if k == "signature":
             item.signature(e["a"], e["b"], at.get("why", ""))
         elif k == "replace":
@@ -267,7 +283,7 @@ def _with_false(text):
     return t + "\n ensures false,"
 
 
-def generate(u, repo, specs_dir, twin_of=None, extra=""):
+def generate(u, repo, specs_dir, twin_of=None, extra="", prelets=None):
     """Returns (text, meta).  meta: items with generated line ranges, edit logs, functions under
     contract.  twin_of = index of the item whose contract gets `ensures false` (vacuity twin)."""
     out = []
@@ -299,7 +315,8 @@ def generate(u, repo, specs_dir, twin_of=None, extra=""):
             raise rsx.LostAnchor("expected text `%s` found %d times in %s" % (txt.strip(), len(hits), rel.strip()))
     for idx, it in enumerate(u["items"]):
         item = rsx.extract(repo, it["relpath"], it["steps"])
-        contracted = apply_edits(item, it["edits"], twin_false=(twin_of == idx))
+        contracted = apply_edits(item, it["edits"], twin_false=(twin_of == idx), prelets=(prelets or {}).get(idx))
+        item.normalise_wild_closure_params()
         cur = "".join(out)
         start_line = cur.count("\n") + 1
         out.append("// ---- extracted: %s :: %s (lines %d-%d)\n" % (it["relpath"], item.path, item.line, item.end_line))
@@ -318,7 +335,7 @@ def generate(u, repo, specs_dir, twin_of=None, extra=""):
         meta["items"].append({"relpath": it["relpath"], "path": item.path, "fn": fname,
                               "label": it["as"] or fname,
                               "src_lines": [item.line, item.end_line],
-                              "gen_lines": [start_line, end_line], "contracted": contracted,
+                              "gen_lines": [start_line, end_line], "contracted": contracted, "steps": it["steps"],
                               "edits": item.log, "original": item.original})
     out.append("// ---- postlude (lemmas)\n")
     out.append(u["postlude"])
